@@ -5,7 +5,10 @@ ID=$1; PATCH=$2; TIER=${3:-quick}
 cd /repo || exit 2
 if ! git diff --quiet; then echo "repo has uncommitted changes"; exit 2; fi
 git apply "$PATCH" || { echo "patch does not apply"; exit 2; }
+cp /verif/evidence/$ID.json /verif/.work/evidence_$ID.saved 2>/dev/null
 cd /verif && ./check "$ID" "$TIER" 2>&1 | grep -E "VIOLATION|KNOWN-FINDING|cases," | cut -c1-300
 RC=${PIPESTATUS[0]}
 git -C /repo checkout -- . 
+# the evidence file describes the unchanged tree: put it back
+cp /verif/.work/evidence_$ID.saved /verif/evidence/$ID.json 2>/dev/null
 echo "check exit: $RC"
